@@ -62,6 +62,7 @@ type Exec struct {
 	globals    map[string]*Object
 	ginit      map[*ssa.Package]*globalInit
 	mutGlobals map[*ssa.Global]bool
+	globalRows map[*ssa.Global]int64 // heap rows of package-level arrays of the module
 	inInit     bool
 	initHeaps  map[string]*Term
 	initFacts  []*Term
@@ -218,6 +219,7 @@ type Frame struct {
 	regs          map[ssa.Value]Value
 	defers        []deferred
 	loops         []*loopCtx
+	loopShift     map[int]bool // loops taken to be new, unspecified ones (see loopSpecFor)
 	visits        map[*ssa.BasicBlock]int
 	callInstr     ssa.Instruction // in the caller frame: the call instruction awaiting the result
 	runningDefers bool
